@@ -4,7 +4,7 @@ From E3FP Require Import Base.Prelude Base.ZSet Base.Murmur3 Model.Geometry Mode
   Gen.Constants Gen.AngleTable.
 Open Scope Z_scope.
 
-Definition FUEL : nat := 400%nat.
+Definition FUEL : nat := Z.to_nat 20000.     (* > n^2 - n for every molecule of up to 141 retained atoms (run_terminates) *)
 
 Definition runZ (o : opts) (m : mol ZD) : result state := run ZD e3fp_consts FUEL o m.
 
@@ -59,10 +59,54 @@ From E3FP Require Import Model.Fprinter.
 
 Definition frunZ := frun ZD e3fp_consts FUEL.
 Definition frun_allZ := frun_all ZD e3fp_consts FUEL.
+(* the seeded-bug variant of Model/Fprinter.v: used only by the refutation `stale_levels_without_reset` *)
+Definition frun_noresetZ := frun_noreset ZD e3fp_consts FUEL.
 
-(* after the history h (identity, molecule data at call time), the implementation's observation of the LAST run *)
-Definition check_history (o : opts) (h : list (Z * mol ZD)) (k : Z) (expected : list (list (Z * Z * list Z))) : bool :=
-  match f_last ZD (frun_allZ (new_fprinter ZD o) h) with
-  | Some (Ok st) => (st_k st =? k) && list_eqb (list_eqb obs_eqb) (obs_levels st) expected
-  | _ => false
+(* level_shells[l], level_shells[l+1], ... (n entries) READ FROM THE OBJECT'S DICTIONARY, each as a list sorted by
+   (identifier, centre); None if a key is missing *)
+Fixpoint obs_dict (d : list (Z * list shell)) (l : Z) (n : nat) : option (list (list (Z * Z * list Z))) :=
+  match n with
+  | O => Some []
+  | S n' => match dget l d, obs_dict d (l + 1) n' with
+            | Some s, Some r => Some (sort_by obs_leb (map shell_obs s) :: r)
+            | _, _ => None
+            end
   end.
+
+Definition check_object (f : fprinter ZD) (k : Z) (expected : list (list (Z * Z * list Z))) : bool :=
+  match f_exn ZD f, f_cur ZD f with
+  | None, Some c =>
+    (c =? k) && (0 <=? k) &&
+    match obs_dict (f_level_shells ZD f) 0 (S (Z.to_nat k)) with
+    | Some ls => list_eqb (list_eqb obs_eqb) ls expected
+    | None => false
+    end
+  | _, _ => false
+  end.
+
+(* after the history h (identity, molecule data at call time), the implementation's observation of the LAST run:
+   current_level and level_shells[0..current_level] *)
+Definition check_history (o : opts) (h : list (Z * mol ZD)) (k : Z) (expected : list (list (Z * Z * list Z))) : bool :=
+  check_object (frun_allZ (new_fprinter ZD o) h) k expected.
+
+(* ... and the KEYS of the implementation's level_shells dictionary (any order): a level left over from an earlier
+   conformer shows up here *)
+Definition keys_agree (f : fprinter ZD) (keys : list Z) : bool :=
+  list_eqb Z.eqb (usort (map fst (f_level_shells ZD f))) (usort keys) &&
+  Nat.eqb (length (f_level_shells ZD f)) (length keys).
+
+Definition check_history_keys (o : opts) (h : list (Z * mol ZD)) (k : Z) (expected : list (list (Z * Z * list Z)))
+    (keys : list Z) : bool :=
+  let f := frun_allZ (new_fprinter ZD o) h in
+  check_object f k expected && keys_agree f keys.
+
+(* ... and any number of get_fingerprint_at_level queries on the object after the history (explicit levels beyond
+   current_level included), answered by the model through its dictionary *)
+Definition check_fquery (f : fprinter ZD) (q : query) : bool :=
+  let '(counts, bits, req, mask, expected) := q in
+  result_eqb fp_obs_eqb (fquery ZD f counts bits req mask) expected.
+
+Definition check_history_queries (o : opts) (h : list (Z * mol ZD)) (k : Z) (expected : list (list (Z * Z * list Z)))
+    (keys : list Z) (qs : list query) : bool :=
+  let f := frun_allZ (new_fprinter ZD o) h in
+  check_object f k expected && keys_agree f keys && forallb (check_fquery f) qs.
